@@ -463,14 +463,21 @@ func nodeField(n Node, k string) (any, string, string) {
 		return n.Long, reach, ".name"
 	case "ID":
 		return n.Long, reach, ".tag"
+	case "Type":
+		return n.Type, reach, ".name"
+	case "Kind":
+		// n.Kind: the field NAMED Kind, although the earlier field Type is tagged "Kind"
+		return n.Kind, reach, ".name-over-other-tag"
+	case "kind":
+		return n.Kind, reach, ".tag"
 	case "hidden", "secret":
 		return nil, rUnexported, ""
 	}
 	return nil, noField(k, nodeNames), ""
 }
 
-var nodeNames = []string{"Name", "Title", "title", "Count", "count", "Any", "any", "Kids", "Next", "next", "Arr", "Tags", "tags", "M", "Small", "small", "Bytes", "Leaf", "Deep", "Num", "PLeaf", "PDeep", "Short", "Long", "id", "ID", "Token", "Dash"}
-var rootNames = []string{"Plain", "Tagged", "tagged", "List", "Sub", "sub", "Any", "any", "Short", "Long", "id", "ID"}
+var nodeNames = []string{"Name", "Title", "title", "Count", "count", "Any", "any", "Kids", "Next", "next", "Arr", "Tags", "tags", "M", "Small", "small", "Bytes", "Leaf", "Deep", "Num", "PLeaf", "PDeep", "Short", "Long", "id", "ID", "Type", "Kind", "kind"}
+var rootNames = []string{"Plain", "Tagged", "tagged", "List", "Sub", "sub", "Any", "any", "Short", "Long", "id", "ID", "Token", "Dash", "Type", "Kind", "kind"}
 
 // noField tells a name that merely differs in case from a field name or tag (Go selectors and
 // map-like tag access are case-sensitive: it is not that field) from an unrelated name.
@@ -509,6 +516,12 @@ func rootField(r rootT, k string) (any, string, string) {
 		return r.Long, reach, ".name"
 	case "ID":
 		return r.Long, reach, ".tag"
+	case "Type":
+		return r.Type, reach, ".name"
+	case "Kind":
+		return r.Kind, reach, ".name-over-other-tag"
+	case "kind":
+		return r.Kind, reach, ".tag"
 	case "Token":
 		return r.Token, reach, ".name"
 	case "Dash":
@@ -644,7 +657,7 @@ func validSteps(cur any) []string {
 	case [3]int:
 		return idx(3)
 	case Node:
-		o := []string{"Name", "Title", "title", "Count", "count", "Any", "any", "Kids", "Next", "next", "Arr", "Tags", "tags", "M", "Small", "small", "Bytes", "Short", "id", "Long", "ID", "Leaf", "Deep", "Num", "num", "PLeaf"}
+		o := []string{"Name", "Title", "title", "Count", "count", "Any", "any", "Kids", "Next", "next", "Arr", "Tags", "tags", "M", "Small", "small", "Bytes", "Short", "id", "Long", "ID", "Type", "Kind", "kind", "Leaf", "Deep", "Num", "num", "PLeaf"}
 		if c.PLeaf != nil {
 			o = append(o, "PDeep")
 		}
